@@ -24,6 +24,9 @@ thread_local! {
     /// build the cache handle before any of its directories exists (they are created and populated afterwards, as
     /// by another process): what a level holds is looked up at each operation, not when the handle is built
     pub static LATE_DIRS: std::cell::Cell<bool> = const { std::cell::Cell::new(false) };
+    /// the write level is exactly full (capacity 2 per directory) of entries read since insertion, and the
+    /// operation's maintenance fires (C13 varies it): what the operation stores must still be there afterwards
+    pub static CROWDED_WRITER: std::cell::Cell<bool> = const { std::cell::Cell::new(false) };
     /// thorough tier: the matrices also cover stacks with three read-only levels and values of 0 B and 3 x 8 KiB
     pub static DEEP: std::cell::Cell<bool> = const { std::cell::Cell::new(false) };
     /// an fsx controller to install for the duration of the operation
@@ -253,7 +256,7 @@ pub fn run_cell(cell: &Cell) -> CellRun {
     level_dirs.extend(dirs.reads.iter().cloned());
     let levels = cell.levels();
     let early_cfg = StackCfg {
-        writer: cell.writer.map(|f| (f, 1usize << 40)),
+        writer: cell.writer.map(|f| (f, writer_capacity(f))),
         readers: cell.readers.clone(),
         checker: match cell.checker {
             0 => Checker::None,
@@ -287,6 +290,17 @@ pub fn run_cell(cell: &Cell) -> CellRun {
             None => copies.push(None),
         }
     }
+    if CROWDED_WRITER.with(|c| c.get()) {
+        if let Some(f) = cell.writer {
+            let k = the_key();
+            for d in ops::candidate_dirs(&dirs.write, f, &k) {
+                for (i, name) in ["by1", "by2"].iter().enumerate() {
+                    let m = old - (600 + i as i128) * 1_000_000_000;
+                    world::plant(&d.join(name), b"bystander", 0o444, m + 5_000_000_000, m);
+                }
+            }
+        }
+    }
     if STALE_DEBRIS.with(|d| d.get()) {
         let stale = run::base_time_ns() as i128 - 7_200_000_000_000;
         for (i, &front) in levels.iter().enumerate() {
@@ -301,7 +315,7 @@ pub fn run_cell(cell: &Cell) -> CellRun {
         }
     }
     let cfg = StackCfg {
-        writer: cell.writer.map(|f| (f, 1usize << 40)),
+        writer: cell.writer.map(|f| (f, writer_capacity(f))),
         readers: cell.readers.clone(),
         checker: match cell.checker {
             0 => Checker::None,
@@ -319,7 +333,7 @@ pub fn run_cell(cell: &Cell) -> CellRun {
     let before: Vec<Snapshot> = snap_dirs.iter().map(|d| world::snapshot(d)).collect();
     let op = cell.the_op();
     let old_umask = unsafe { libc::umask(cell.umask as libc::mode_t) };
-    let force = FORCE_MAINTENANCE.with(|f| f.get());
+    let force = FORCE_MAINTENANCE.with(|f| f.get()) || CROWDED_WRITER.with(|c| c.get());
     let ctl = CONTROLLER.with(|c| c.borrow().clone());
     shim::set_controller(ctl);
     let (out, trace) = run::as_participant(0, 0, || {
@@ -606,6 +620,17 @@ pub fn matrix_sizes() -> Vec<Size> {
 
 pub fn set_tier(tier: crate::report::Tier) {
     DEEP.with(|d| d.set(tier == crate::report::Tier::Thorough));
+}
+
+fn writer_capacity(f: Front) -> usize {
+    if CROWDED_WRITER.with(|c| c.get()) {
+        match f {
+            Front::Plain => 2,
+            Front::Sharded(n) => 2 * n.max(2),
+        }
+    } else {
+        1usize << 40
+    }
 }
 
 pub fn content_products(levels: &[Front]) -> Vec<Vec<Content>> {
